@@ -9,7 +9,6 @@ import (
 	grpcproto "google.golang.org/grpc/encoding/proto"
 	"google.golang.org/protobuf/types/known/anypb"
 
-	"github.com/fullstorydev/grpchan/httpgrpc"
 	"github.com/fullstorydev/grpchan/internal"
 	zv "github.com/fullstorydev/grpchan/internal/zzverif"
 )
@@ -155,8 +154,8 @@ func Verif_C18_Refusals() {
 	which := zv.Choose("case", 3)
 	switch which {
 	case 0:
-		var dst httpgrpc.HttpTrailer
-		dst.Message = "previous"
+		var dst anypb.Any
+		dst.TypeUrl = "previous"
 		err := cl.Copy(&dst, src)
 		zv.Reach("mismatched-destination")
 		if kind == 1 {
